@@ -297,6 +297,44 @@ def h_split_chain(eng, ff):
     eng.check(And(Implies(below, lys_prot), Implies(Not(below), not lys_prot)), "split-chain-second-peptide", note=f"LYS in the split-off second peptide (chains {[c.chain_id for c in bm.chains]}): protonated={lys_prot}; its pKa row was not applied")
 
 
+def h_two_positions(eng, ff, group, terminal):
+    """the same titratable residue type twice in one run - internal in chain A, N- or C-terminal in chain B - each with its
+    own pKa: each ends in the state and with the atom set of the single-residue reference run for ITS chain position
+    (round 6: a per-run cache of patched topologies keyed by residue name and patch gave the terminal residue the
+    internal topology: no H2/H3, a wrong charge)"""
+    from pdb2pqr import main
+
+    seq_a = ["ALA", group, "ALA"]
+    seq_b = [group, "ALA", "ALA"] if terminal == "nterm" else ["ALA", "ALA", group]
+    lines = fixtures.peptide_lines(seq_a, "A", 1) + fixtures.peptide_lines(seq_b, "B", 11, origin=(0.0, 25.0, 0.0), serial0=300)
+    ph = eng.real("ph", 0, 14)
+    pkas = {"group": eng.real("pka"), "group0": eng.real("pka_internal"), "group1": eng.real("pka_terminal"), "N+": eng.real("pka_n"), "C-": eng.real("pka_c")}
+    bm, defn = fixtures.prepared(lines)
+    with patched((main, "run_propka", _propka_stub(pkas))):
+        try:
+            result = main.non_trivial(_args(ff, None, ph), bm, None, defn, False)
+        except ValueError as e:
+            eng.check(False, "run-succeeds", note=f"non_trivial raised ValueError: {str(e)[:200]}")
+            return
+    patch, dprot = GROUPS[group]
+    targets = [r for r in bm.residues if r.res_seq in (2, 11 if terminal == "nterm" else 13)]
+    missed = result["missed_residues"]
+    for res, seq, idx, pka, where in ((targets[0], seq_a, 1, pkas["group0"], "internal"), (targets[1], seq_b, 0 if terminal == "nterm" else 2, pkas["group1"], terminal)):
+        ref_default = _reference(ff, seq, idx, None)
+        ref_other = _reference(ff, seq, idx, patch)
+        prot = ref_default if dprot else ref_other
+        deprot = ref_other if dprot else ref_default
+        below = ph < pka
+        state = _sc_state(res)
+        want_b = prot if prot["supported"] else ref_default
+        want_a = deprot if deprot["supported"] else ref_default
+        eng.check(And(Implies(below, state == want_b["sc"]), Implies(Not(below), state == want_a["sc"])), "each-follows-its-own-pka", note=f"ff={ff} {group} {where} (one of two in the run): state {state}, expected {want_b['sc']} below its pKa / {want_a['sc']} above")
+        natoms = len(res.atoms)
+        eng.check(And(Implies(below, natoms == want_b["natoms"]), Implies(Not(below), natoms == want_a["natoms"])), "each-has-the-atoms-of-its-chain-position", note=f"ff={ff} {group} {where} (one of two in the run): {natoms} atoms ({sorted(a.name for a in res.atoms if a.is_hydrogen)}), the single-residue reference run for this chain position has {want_b['natoms']} below / {want_a['natoms']} above the pKa")
+        lost = len([a for a in missed if a.residue is res])
+        eng.check(lost <= (ref_default["missing"] or 0), "each-not-dropped", note=f"ff={ff} {group} {where}: {lost} atoms unassigned after titration")
+
+
 def h_same_number(eng, ff, variant):
     """two titratable residues that share residue number (insertion code) or differ only in chain:
     each must follow ITS OWN pKa"""
@@ -384,6 +422,10 @@ def obligations(tier):
                 obs.append(Obligation(f"numbering-{ff}-{group}-start{start}", h_titration, dict(ff=ff, ffout=None, group=group, position="internal", start=start), group="titration", time_cap=900))
         for variant in ("insertion-code", "two-chains"):
             obs.append(Obligation(f"same-number-{variant}-{ff}", h_same_number, dict(ff=ff, variant=variant), group="same-number", time_cap=900))
+    for ff in ("amber", "parse") if tier == "quick" else FFS:
+        for group in ("HIS", "ASP") if tier == "quick" else ("HIS", "ASP", "GLU", "LYS", "TYR", "CYS"):
+            for terminal in ("nterm", "cterm"):
+                obs.append(Obligation(f"two-positions-{ff}-{group}-{terminal}", h_two_positions, dict(ff=ff, group=group, terminal=terminal), group="two-positions", time_cap=900))
     for ff in (0, 1):
         obs.append(Obligation(f"ph-reaches-titration-ff{ff}", h_ph_reaches_titration, dict(ff=ff), group="ph-flow", time_cap=900, max_paths=100000))
     return obs
